@@ -43,7 +43,11 @@ type SOp struct {
 	IsDel  bool   `json:"is_del,omitempty"`
 	Stack  string `json:"stack,omitempty"`
 	Count  uint64 `json:"count,omitempty"`
-	Slot   int    `json:"slot,omitempty"`
+	Slot   int    `json:"slot,omitempty"` // upload covers [base + era*1e6 + slot*10, +10) seconds
+	Era    int    `json:"era,omitempty"`  // 0 = old, 1 = new (a million seconds later)
+	// a retention pass: Storage.DeleteDataBefore(time.Unix(Retain, 0))
+	IsRetain bool  `json:"is_retain,omitempty"`
+	Retain   int64 `json:"retain,omitempty"`
 }
 
 type StoreIn struct {
@@ -139,7 +143,10 @@ func runDim(in *DimIn) lib.Result {
 
 // ---------- storage level ----------
 
-var baseTime = time.Unix(1600000000, 0)
+const baseUnix = 1600000000
+const retainUnix = baseUnix + 500000 // between the two eras
+
+var baseTime = time.Unix(baseUnix, 0)
 
 func flatten(n *tree.VerifNode, prefix string, out *[][2]interface{}) {
 	for _, c := range n.Children {
@@ -176,8 +183,18 @@ func runStore(in *StoreIn) (res lib.Result) {
 	}()
 
 	var opsC []string
-	nput, ndel := 0, 0
+	nput, ndel, nret, reingest := 0, 0, 0, 0
+	retained := false
 	for _, o := range in.Ops {
+		if o.IsRetain {
+			if err := s.DeleteDataBefore(time.Unix(o.Retain, 0)); err != nil {
+				return lib.Result{Crash: "DeleteDataBefore: " + err.Error()}
+			}
+			opsC = append(opsC, fmt.Sprintf("SRetain %d", o.Retain))
+			nret++
+			retained = true
+			continue
+		}
 		if o.IsDel {
 			k, _ := storage.ParseKey(o.Delete)
 			if err := s.Delete(&storage.DeleteInput{Key: k}); err != nil {
@@ -190,12 +207,16 @@ func runStore(in *StoreIn) (res lib.Result) {
 		k, _ := storage.ParseKey(o.Put)
 		t := tree.New()
 		t.Insert([]byte(o.Stack), o.Count)
-		st := baseTime.Add(time.Duration(o.Slot) * 10 * time.Second)
+		unix := int64(baseUnix) + int64(o.Era)*1000000 + int64(o.Slot)*10
+		st := time.Unix(unix, 0)
+		if retained && o.Era == 0 {
+			reingest++
+		}
 		if err := s.Put(&storage.PutInput{StartTime: st, EndTime: st.Add(10 * time.Second), Key: k, Val: t,
 			SpyName: "verif", SampleRate: 100}); err != nil {
 			return lib.Result{Crash: "Put: " + err.Error()}
 		}
-		opsC = append(opsC, fmt.Sprintf("SPut %s %s %d", bs(o.Put), bs(o.Stack), o.Count))
+		opsC = append(opsC, fmt.Sprintf("SPut %s %s %d %d", bs(o.Put), bs(o.Stack), o.Count, unix))
 		nput++
 	}
 
@@ -203,7 +224,7 @@ func runStore(in *StoreIn) (res lib.Result) {
 	maxTags := 0
 	for _, q := range in.Selectors {
 		k, _ := storage.ParseKey(q)
-		out, err := s.Get(&storage.GetInput{StartTime: baseTime, EndTime: baseTime.Add(10000 * time.Second), Key: k})
+		out, err := s.Get(&storage.GetInput{StartTime: baseTime, EndTime: baseTime.Add(10000000 * time.Second), Key: k})
 		if err != nil {
 			return lib.Result{Crash: "Get: " + err.Error()}
 		}
@@ -288,7 +309,8 @@ func runStore(in *StoreIn) (res lib.Result) {
 		}
 	}
 	return lib.Result{Coq: coq, NonTrivial: nput >= 3 && maxTags >= 2,
-		Feat: map[string]interface{}{"kind": "store", "puts": nput, "deletes": ndel, "selectors": len(in.Selectors),
+		Feat: map[string]interface{}{"kind": "store", "puts": nput, "deletes": ndel, "retention_passes": nret,
+			"old_era_puts_after_retention": reingest, "selectors": len(in.Selectors),
 			"max_selector_tags": maxTags, "special_value_chars": special}}
 }
 
@@ -477,6 +499,22 @@ var tagVals = []string{"1", "2", "x", "x:y", "http://x/y.z", "a.b", "v/1", "1:2:
 type series struct {
 	app  string
 	tags map[string]string
+	era  int
+}
+
+// words split at two positions give tag pairs whose name+value concatenations collide
+var collideWords = []string{"host1:9090", "zonea/b.c", "abc", "envx.y", "k12"}
+
+func collidingPairs(r *rand.Rand) [2][2]string {
+	w := lib.Pick(r, collideWords)
+	lim := strings.IndexAny(w, ":")
+	if lim < 0 {
+		lim = len(w)
+	}
+	// names are non-empty and contain no ':'
+	i := lib.Range(r, 1, lim-1)
+	j := lib.Range(r, i+1, lim)
+	return [2][2]string{{w[:i], w[i:]}, {w[:j], w[j:]}}
 }
 
 func (s series) render(r *rand.Rand, ws bool) string {
@@ -533,6 +571,9 @@ func genStore(r *rand.Rand) Input {
 	np := lib.Range(r, 3, 8)
 	for tries := 0; len(pool) < np && tries < 50; tries++ {
 		s := series{app: lib.Pick(r, apps), tags: map[string]string{}}
+		if lib.Chance(r, 0.3) {
+			s.era = 1
+		}
 		for _, k := range keys {
 			if lib.Chance(r, 0.6) {
 				s.tags[k] = lib.Pick(r, vals)
@@ -542,6 +583,15 @@ func genStore(r *rand.Rand) Input {
 			seen[s.canon()] = true
 			pool = append(pool, s)
 		}
+	}
+	// tag pairs with colliding name+value concatenations, on one series or spread over two
+	var collideKeys []string
+	if lib.Chance(r, 0.35) && len(pool) >= 2 {
+		cp := collidingPairs(r)
+		a, b := r.Intn(len(pool)), r.Intn(len(pool))
+		pool[a].tags[cp[0][0]] = cp[0][1]
+		pool[b].tags[cp[1][0]] = cp[1][1]
+		collideKeys = []string{cp[0][0], cp[1][0]}
 	}
 	sub := func(s series, p float64) series {
 		q := series{app: s.app, tags: map[string]string{}}
@@ -554,7 +604,12 @@ func genStore(r *rand.Rand) Input {
 	}
 	in := &StoreIn{}
 	nops := lib.Range(r, 4, 18)
+	retention := lib.Chance(r, 0.5)
 	for i := 0; i < nops; i++ {
+		if retention && i > 1 && lib.Chance(r, 0.15) {
+			in.Ops = append(in.Ops, SOp{IsRetain: true, Retain: retainUnix})
+			continue
+		}
 		if i > 1 && lib.Chance(r, 0.2) {
 			q := sub(lib.Pick(r, pool), lib.Pick(r, []float64{0, 0.5, 1}))
 			if lib.Chance(r, 0.1) {
@@ -565,7 +620,7 @@ func genStore(r *rand.Rand) Input {
 		}
 		j := r.Intn(len(pool))
 		in.Ops = append(in.Ops, SOp{Put: pool[j].render(r, true), Stack: fmt.Sprintf("s%d", j),
-			Count: uint64(lib.Range(r, 1, 9)), Slot: lib.Range(r, 0, 30)})
+			Count: uint64(lib.Range(r, 1, 9)), Slot: lib.Range(r, 0, 30), Era: pool[j].era})
 	}
 	// selectors: 0..4 tags in random order
 	nq := lib.Range(r, 4, 9)
@@ -591,6 +646,7 @@ func genStore(r *rand.Rand) Input {
 		}
 	}
 	in.ValueKeys = append(in.ValueKeys, keys...)
+	in.ValueKeys = append(in.ValueKeys, collideKeys...)
 	return Input{Store: in}
 }
 
